@@ -350,6 +350,11 @@ class ProcessRunner(Runner, ABC):
                 storage=storage
             )
         finally:
+            # Forward any captured output before the result is sent, so
+            # that the main process has received it by the time it
+            # learns that the task has finished.
+            sys.stdout.flush()
+            sys.stderr.flush()
             process_event_queue.put(ProcessEndEvent(
                 task_name=task_name,
             ))
@@ -368,6 +373,9 @@ class ProcessRunner(Runner, ABC):
     def wait(self, *, timeout_seconds: Optional[float]) -> Iterator[tuple[Task, ResultMeta | BaseException]]:
         self._consume_log_queue()
         done, _ = self.executor.wait(list(self.future_to_task.keys()), timeout_seconds=timeout_seconds)
+        # Tasks log before they send their result, so handle whatever the
+        # tasks that are now done logged before we report them as done.
+        self._consume_log_queue()
         for future in done:
             task = self.future_to_task[future]
             if future.cancelled:
